@@ -58,13 +58,16 @@ def pred_c05(prog, ob):
     for e in ob["trace"]:
         if e[0] != "send":
             continue
-        _, tk, t, c, r, acts, el, rc = e
+        _, tk, t, c, r, acts, el, rc = e[:8]
         fm = names[t]
         local = {j: fr["name"] for j, fr in enumerate(fm["frames"])}
         anames = [local[a] for a in acts]
         if r in RUNNING:
-            ok = any(anames == outline_of(fm, fr["name"]) for fr in fm["frames"]) or \
-                 any(anames == head_of(fm, fr["name"]) for fr in fm["frames"])
+            if len(e) > 8 and e[8] is not None:
+                full = outline_of(fm, local[e[8]])       # the outline of the ACTIVE frame
+                ok = anames == full or any(anames == head_of(fm, m) for m in full)
+            else:
+                ok = False
             if not ok:
                 return ("actives-not-outline", "tick %d: framer %s status %d has actives %r: neither an outline nor "
                         "a head" % (tk, fm["name"], r, anames))
@@ -134,8 +137,33 @@ def pred_c06(prog, ob, crashed=False):
             if cur != "in":
                 return ("exit-without-enter", "tick %d: frame %s.%s exited without being entered" % (tk, fmn, frn))
             state[k] = "out"
-    if not crashed:
-        sched = set(fm["name"] for fm in prog["framers"] if fm["sched"] in ("active", "inactive"))
+    # re-exit actions run bottom-up, re-enter actions top-down, over the shared ancestors of a transition
+    fms = {fm["name"]: fm for fm in prog["framers"]}
+    run_of = []          # consecutive (framer, frame, ctx) events of renter / rexit recorders
+    for e in ob["trace"] + [["send"]]:
+        if e[0] == "rec" and e[2] in tab and tab[e[2]][3] == 0 and tab[e[2]][2] in ("renacts", "rexacts"):
+            run_of.append((e[1],) + tab[e[2]][:3])
+            continue
+        if e[0] == "send" or (e[0] == "rec" and e[2] in tab and tab[e[2]][2] in ("enacts", "exacts")):
+            for (tk1, fa, ra, ca), (tk2, fb, rb, cb) in zip(run_of, run_of[1:]):
+                if fa == fb and ca == cb:
+                    if ca == "renacts" and ra in head_of(fms[fa], rb)[:-1] is False:
+                        pass
+                    if ca == "renacts" and rb in head_of(fms[fa], ra)[:-1]:
+                        return ("renter-order", "tick %d: re-enter action of %s.%s ran before that of its ancestor "
+                                "%s (must be top-down)" % (tk1, fa, ra, rb))
+                    if ca == "rexacts" and ra in head_of(fms[fa], rb)[:-1]:
+                        return ("rexit-order", "tick %d: re-exit action of %s.%s ran before that of its descendant "
+                                "%s (must be bottom-up)" % (tk1, fa, ra, rb))
+            run_of = []
+    sched = set(fm["name"] for fm in prog["framers"] if fm["sched"] in ("active", "inactive"))
+    if crashed:
+        # with an injected fault only the framers that later received a (logged) ABORT and reported
+        # ABORTED are known to have been swept: those must have exited their own frames
+        swept = set(n for n, t in tid_of.items()
+                    if any(e[0] == "send" and e[2] == t and e[3] == 3 and e[4] == 3 and not e[5] for e in ob["trace"]))
+        sched = sched & swept
+    if True:
         left = [k for k, v in state.items() if v == "in" and k[0] in sched]
         if left:
             if any(suspended.get(k[0]) for k in left):
@@ -161,6 +189,17 @@ def pred_c03(prog, ob, crashed=False):
             break
     if len(set(sweep)) != len(sweep):
         return ("sweep-twice", "a tasker was aborted twice in the final sweep: %r" % (sweep,))
+    if crashed:
+        # a fault delivered inside the final sweep itself (no scheduler send follows the crashing action)
+        # interrupts the sweep: outside the statement (the run had already ended)
+        k, seen, after = crashed[0], 0, None
+        for i, e in enumerate(ob["trace"]):
+            if e[0] == "rec":
+                if seen == k:
+                    after = i
+                seen += 1
+        if after is not None and not any(e[0] == "send" and e[2] in taskables for e in ob["trace"][after + 1:]):
+            return None
     for t in taskables:
         if ob["status"][t] != 3:
             return ("not-aborted", "tasker %d not aborted when run() returned (status %d)" % (t, ob["status"][t]))
@@ -179,6 +218,14 @@ def pred_c09(prog, ob):
     inside = {}
     for tk, fmn, frn, kind in enter_exit_events(prog, ob):
         inside[(fmn, frn)] = (kind == "enter")
+        if kind == "exit":
+            # the exit action of a main frame runs after its plain auxiliaries were fully exited
+            for ax, mains in plain.items():
+                if mains == [(fmn, frn)] and ax not in cond:
+                    still = [k for k, v in inside.items() if v and k[0] == ax]
+                    if still:
+                        return ("aux-outlives-main", "tick %d: main frame %s.%s exits while frames %r of its "
+                                "auxiliary %s are still entered" % (tk, fmn, frn, still, ax))
         if fmn in plain and fmn not in cond and kind == "enter":
             mains = plain[fmn]
             if not any(inside.get(m) for m in mains):
@@ -207,7 +254,7 @@ def pred_c11(prog, ob):
             if e[2] in tab and tab[e[2]][2] == "enacts" and tab[e[2]][3] == 0:
                 entered_now.add(tab[e[2]][0])
             continue
-        _, tk, t, c, r, acts, el, rc = e
+        _, tk, t, c, r, acts, el, rc = e[:8]
         if t not in sched:
             entered_now.discard(fmn_of[t])
             continue
@@ -227,7 +274,91 @@ def pred_c11(prog, ob):
     return None
 
 
-PREDS = {"C03": pred_c03, "C05": pred_c05, "C06": pred_c06, "C09": pred_c09, "C11": pred_c11}
+def bid_table(prog):
+    """recorder tag placed immediately before a bid -> (control number, [target tids])"""
+    ix = kernel.Index(prog)
+    ctln = {"stop": 0, "start": 1, "run": 2, "abort": 3, "ready": 4}
+    tab = {}
+    for fm in prog["framers"]:
+        for fr in fm["frames"]:
+            for key in ("enacts", "renacts", "reacts", "exacts", "rexacts"):
+                acts = fr.get(key, [])
+                for i in range(len(acts) - 1):
+                    if acts[i][0] == "rec" and acts[i + 1][0] == "bid":
+                        b = acts[i + 1]
+                        ts = []
+                        for nm in b[2]:
+                            if nm == "all":
+                                ts += ix.taskables(prog)
+                            elif nm == "me":
+                                ts.append(ix.tid[fm["name"]])
+                            else:
+                                ts.append(ix.tid[nm])
+                        tab[acts[i][1]] = (ctln[b[1]], ts)
+    return tab
+
+
+def pred_c04(prog, ob):
+    """every control the scheduler sends to a tasker is the tasker's desire at that moment: the initial
+    desire, updated by the runner's own table and by every bid executed since (the most recent wins);
+    an independent tracker replays that from the recorder events that announce each bid"""
+    ix = kernel.Index(prog)
+    taskables = ix.taskables(prog)
+    bids = bid_table(prog)
+    desire = {}
+    status = {}
+    for fm in prog["framers"]:
+        t = ix.tid[fm["name"]]
+        desire[t] = 1 if fm["sched"] == "active" else 0
+        status[t] = 0
+    pending = []          # bids executed since the last top-level send was logged
+    n_sends = len([e for e in ob["trace"] if e[0] == "send" and e[2] in taskables])
+    seen = 0
+    last_tick = max([e[1] for e in ob["trace"]] or [0])
+    for e in ob["trace"]:
+        if e[0] == "rec":
+            if e[2] in bids:
+                pending.append(bids[e[2]])
+            continue
+        _, tk, t, c, r, acts, el, rc = e[:8]
+        if t not in taskables:
+            continue
+        seen += 1
+        in_sweep = (c == 3 and tk == last_tick and desire[t] != 3)
+        if not in_sweep and c != desire[t]:
+            return ("wrong-control", "tick %d: tasker %d was sent control %d but its latest desire (own table + most "
+                    "recent bid) was %d" % (tk, t, c, desire[t]))
+        if r is None:
+            pending = []
+            continue
+        s0 = status[t]
+        running = s0 in (1, 2)
+        # runner table (framing.Framer.makeRunner): desire written BEFORE the actions run, except for ABORT
+        if c == 2:
+            if not running and s0 in (0, 4):
+                desire[t] = 1
+        elif c == 4:
+            if s0 in (0, 4) and r == 0:
+                desire[t] = 0
+        elif c == 1:
+            if s0 in (0, 4):
+                desire[t] = 2 if r == 1 else 0
+            elif running:
+                desire[t] = 2
+        elif c == 0:
+            if running:
+                desire[t] = 0
+        for ctl, ts in pending:       # bids executed during this send (and since the previous one)
+            for x in ts:
+                desire[x] = ctl
+        pending = []
+        if c == 3 or r == 3:
+            desire[t] = 3
+        status[t] = r
+    return None
+
+
+PREDS = {"C04": pred_c04, "C03": pred_c03, "C05": pred_c05, "C06": pred_c06, "C09": pred_c09, "C11": pred_c11}
 
 
 def kernel_check(ctx, pid, runs, preds, rule, extra_assumptions=(), corpus=()):
@@ -246,17 +377,33 @@ def kernel_check(ctx, pid, runs, preds, rule, extra_assumptions=(), corpus=()):
         ob = kernel.run_impl(p, ca, ctx.work, "corpus%d" % i, maxticks=ctx.n(20, 36))
         ctx.case({"corpus": i, "flo": kernel.render_flo(p)}, nontrivial=True, kind="corpus")
         allm.append((p, ca, ob, False))
+    sc_cases, sc_meta = [], []
+    for nm, p in kernel.scenarios(0.125) + kernel.scenarios(0.1):
+        ob = kernel.run_impl(p, None, ctx.work, "sc_" + nm.replace("-", "_"), maxticks=ctx.n(20, 36))
+        if "error" in ob:
+            ctx.tie_broken("correspondence", "scenario %s: implementation raised %s" % (nm, ob["error"]),
+                           kernel.json_dumps(ob))
+            allm.append((p, None, ob, True))
+            continue
+        ctx.case({"scenario": nm, "tick": p["tick"], "events": len(ob["trace"])}, nontrivial=True, kind="scenario")
+        sc_cases.append((kernel.coq_run_expr(p, None, ctx.n(20, 36)), kernel.coq_obs(ob)))
+        sc_meta.append((nm, p, ob))
+        allm.append((p, None, ob, False))
+    for i in ctx.coq_cases(kernel.COQ_HEADER, "(obs_eqb FOps)", sc_cases, shard=8, name="scen"):
+        nm, p, ob = sc_meta[i]
+        ctx.tie_broken("correspondence", "scenario %s: model and implementation traces differ" % nm,
+                       kernel.json_dumps({"flo": kernel.render_flo(p), "impl": ob}))
     for r in runs:
         allm += kernel.correspond(ctx, ctx.n(r["quick"], r["thorough"]), features=r.get("features"),
                                   ticks=r.get("ticks", (0.125,)), sizes=r.get("sizes", (2, 4)),
                                   crash=r.get("crash", "none"), maxticks=ctx.n(20, 36), label=r["label"])
-    seen = set()
+    seen, fails = set(), []
     for p, ca, ob, bad in allm:
         if "error" in ob:
             continue
         for pr in preds:
             f = PREDS[pr]
-            res = f(p, ob, crashed=ca is not None) if pr in ("C03", "C06") else f(p, ob)
+            res = f(p, ob, crashed=ca) if pr in ("C03", "C06") else f(p, ob)
             if res:
                 key, why = res
                 key = "%s:%s" % (pr, key)
@@ -264,11 +411,19 @@ def kernel_check(ctx, pid, runs, preds, rule, extra_assumptions=(), corpus=()):
                     continue
                 seen.add(key)
                 # the implementation alone fails the executable statement on this program
-                ctx.violation({"flo": kernel.render_flo(p), "crash_at": ca, "why": why,
-                               "impl_trace_head": ob["trace"][:80], "contradicts": "%s.Props / statement %s" % (pid, pr)},
-                              True, key)
+                fails.append((key, {"flo": kernel.render_flo(p), "crash_at": ca, "why": why,
+                                    "impl_trace_head": ob["trace"][:80],
+                                    "contradicts": "%s.Props / statement %s" % (pid, pr)}))
+    # known findings are printed, the others are violations with their concrete program
+    unknown = [(k, r) for k, r in fails if not ctx.known_finding(k)]
+    if not ctx.broken:
+        for k, r in unknown:
+            ctx.violation(r, True, k)
 
     def search():
+        if unknown:
+            k, r = unknown[0]
+            return dict(r, key=k)
         for p, ca, ob, bad in allm:
             if "error" in ob and ob["error"] != "Hang":
                 return {"key": "%s:impl-error:%s" % (pid, ob["error"]), "flo": kernel.render_flo(p),
